@@ -30,11 +30,15 @@ type WriteSet struct {
 	Boxes  map[*ssa.Alloc]bool   // heap allocs of this function written directly
 	Params map[int]bool          // writes through pointer parameter i (non-struct deref)
 	Globs  map[*ssa.Global]bool
-	freshIn func(*ssa.Alloc) bool
+	// Readers: parameters (by index) whose reader position is advanced (reader model)
+	Readers      map[int]bool
+	ReaderCells  map[*ssa.Alloc]bool
+	freshIn      func(*ssa.Alloc) bool
+	regionBlocks map[*ssa.BasicBlock]bool
 }
 
 func newWriteSet() *WriteSet {
-	return &WriteSet{Heap: map[string]bool{}, Cells: map[*ssa.Alloc]bool{}, Boxes: map[*ssa.Alloc]bool{}, Params: map[int]bool{}, Globs: map[*ssa.Global]bool{}}
+	return &WriteSet{Heap: map[string]bool{}, Cells: map[*ssa.Alloc]bool{}, Boxes: map[*ssa.Alloc]bool{}, Params: map[int]bool{}, Globs: map[*ssa.Global]bool{}, Readers: map[int]bool{}, ReaderCells: map[*ssa.Alloc]bool{}}
 }
 
 func (w *WriteSet) setAll(why string) {
@@ -234,6 +238,7 @@ func (e *Engine) addPtrTargetKeys(pt types.Type, w *WriteSet) {
 // writeSetOfBlocks computes the write set of a set of blocks of fn.
 func (e *Engine) writeSetOfBlocks(fn *ssa.Function, blocks map[*ssa.BasicBlock]bool, visiting map[*ssa.Function]bool) *WriteSet {
 	w := newWriteSet()
+	w.regionBlocks = blocks
 	w.freshIn = func(a *ssa.Alloc) bool {
 		if a.Parent() != fn {
 			return false
@@ -274,6 +279,9 @@ func (e *Engine) writeSetOfBlocks(fn *ssa.Function, blocks map[*ssa.BasicBlock]b
 func (e *Engine) callWrites(cc *ssa.CallCommon, w *WriteSet, fn *ssa.Function, visiting map[*ssa.Function]bool) {
 	// cells whose address is passed
 	for _, a := range cc.Args {
+		if mi, ok := a.(*ssa.MakeInterface); ok {
+			a = mi.X // a pointer passed as interface{} (binary.Read(&x), fmt args)
+		}
 		if al, ok := a.(*ssa.Alloc); ok {
 			if al.Heap {
 				w.Boxes[al] = true
@@ -316,7 +324,49 @@ func (e *Engine) callWrites(cc *ssa.CallCommon, w *WriteSet, fn *ssa.Function, v
 		}
 		return
 	case *ssa.Function:
-		e.funcWrites(f, w, visiting)
+		inRegion := func(in ssa.Instruction) bool {
+			if w.regionBlocks == nil {
+				return in.Parent() == fn
+			}
+			return in.Parent() == fn && w.regionBlocks[in.Block()]
+		}
+		noteReader := func(v ssa.Value) {
+			switch o := originOf(v, fn, inRegion); o.kind {
+			case "param":
+				w.Readers[o.param] = true
+			case "fresh":
+			case "cell":
+				if w.regionBlocks != nil {
+					w.ReaderCells[o.cell] = true // loop region: havoc just that reader (looked up in the frame)
+				} else {
+					e.ghostKeys()
+					w.Heap[gBrPos] = true
+				}
+			default:
+				e.ghostKeys()
+				w.Heap[gBrPos] = true
+			}
+		}
+		if ai, ok := readerOpArg(f); ok && ai < len(cc.Args) {
+			// a reader-model operation: advances exactly the reader it is given
+			noteReader(cc.Args[ai])
+			if f.Pkg.Pkg.Path() == "io" && len(cc.Args) > 1 {
+				if originOf(cc.Args[1], fn, inRegion).kind != "fresh" {
+					key, _ := e.memKey(types.Typ[types.Uint8])
+					w.Heap[key] = true
+				}
+			}
+			return
+		}
+		sub := newWriteSet()
+		e.funcWrites(f, sub, visiting)
+		// the callee advances the readers it receives as parameters: map them to our arguments
+		for idx := range sub.Readers {
+			if idx < len(cc.Args) {
+				noteReader(cc.Args[idx])
+			}
+		}
+		w.merge(sub)
 		return
 	case *ssa.MakeClosure:
 		if cf, ok := f.Fn.(*ssa.Function); ok {
@@ -386,6 +436,9 @@ func (e *Engine) funcWrites(f *ssa.Function, w *WriteSet, visiting map[*ssa.Func
 	}
 	if ws, ok := e.writeSets[f]; ok {
 		w.merge(ws)
+		for k := range ws.Readers {
+			w.Readers[k] = true
+		}
 		return
 	}
 	if visiting == nil {
@@ -399,6 +452,9 @@ func (e *Engine) funcWrites(f *ssa.Function, w *WriteSet, visiting map[*ssa.Func
 	delete(visiting, f)
 	e.writeSets[f] = ws
 	w.merge(ws)
+	for k := range ws.Readers {
+		w.Readers[k] = true
+	}
 }
 
 func (e *Engine) mapKeys(mt *types.Map) []string {
